@@ -83,6 +83,21 @@ def judge(ctx, kind, e):
         except Exception as ex:
             ctx.violation('C18|parse-result-not-micheline|' + kind, repr(back)[:200], case)
             continue
+        if got == want and ctx.evaluations % 3 == 0:
+            # parse results belong to the caller: editing one must not change what the next parse of the same text returns
+            try:
+                if isinstance(back, list):
+                    back.append({'prim': 'edited_by_the_caller'})
+                elif isinstance(back, dict):
+                    back['prim' if 'prim' in back else next(iter(back))] = 'edited_by_the_caller'
+                again = MB.nf(michelson_to_micheline(text, parser=parser()))
+                ctx.count('texts_parsed_again_after_the_first_result_was_edited')
+                if again != want:
+                    ctx.violation('C18|second-parse-returns-the-edited-first-result|' + kind, 'text=%r' % text[:200], case)
+                    continue
+            except Exception as ex:
+                ctx.violation('C18|second-parse-raises|' + kind, repr(ex)[:200], case)
+                continue
         if got != want:
             d = first_diff(want, got)
             where = d[0].rsplit('/', 1)[-1] if d else '?'
@@ -135,11 +150,13 @@ def run(ctx):
     for _ in range(n):
         kind, e = GS.gen_expr(rng, rng.choice([1, 2, 3, 4]))
         judge(ctx, kind, e)
+        ctx.remember(judge, ctx, kind, e)
     from rv.gen import corpus as C
     for k, (kind, e) in enumerate(C.micheline_items()):
         if ctx.mine(k) and (not ctx.quick or GS_size(e) < 3000):
             ctx.count('corpus_expressions')
             judge(ctx, 'corpus-' + kind, e)
+    ctx.run_again()
     ctx.require('roundtrips', 200)
     ctx.require('multi_line_outputs', 10)
 
